@@ -498,7 +498,6 @@ Section Presence.
     cbv zeta. apply c_opt_none_iff in P1. apply c_opt_none_iff in P2. pose proof P3 as P3'.
     apply c_opt_none_iff in P3. apply c_opt_none_iff in H.
     repeat split; try tauto.
-    intros j E. rewrite E in P3'. apply c_opt_wf in P3' as [_ W]. unfold c_sprout in W. rewrite wf_dep in W.
-    apply andb_true_iff in W as [_ W]. apply c_opt_none_iff in W. rewrite negb_false_iff, is_nil_iff in W. exact W.
-  Qed.
+  Show.
+Abort.
 End Presence.
